@@ -343,6 +343,10 @@ class Check:
         not_seen = [k['signature'] for k in open_k if k.get('property') == self.prop and not any(fnmatch.fnmatchcase(s, k['signature']) for s in seen_sigs)]
         if not_seen:
             self.notes.append('listed open findings not reproduced in this run: ' + ', '.join(not_seen))
+            # every listed finding of this property is named on every run; the ones this run's sample did not exercise say so
+            for k in open_k:
+                if k.get('property') == self.prop and k['signature'] in not_seen:
+                    lines.append(f'KNOWN-FINDING: property={self.prop} {k["signature"]}: {str(k.get("what", ""))[:160]} [listed; not exercised by this run\'s sample]')
         rc = 0
         rep_dir = VERIF / 'replays' / self.prop
         violations = 0
